@@ -57,8 +57,8 @@ struct WorkerSpec {
 
 #[derive(Debug, Clone)]
 struct Spec {
-    /// cpu amount (whole units) per request class, in creation order (= rq id order)
-    classes: Vec<u32>,
+    /// (cpu amount in whole units, weight in 1/10000) per request class, in creation order (= rq id order)
+    classes: Vec<(u32, u64)>,
     workers: Vec<WorkerSpec>,
     /// ready tasks: (id, class index, user priority)
     tasks: Vec<(TaskId, usize, i32)>,
@@ -148,7 +148,7 @@ fn worker_config(n: u32, cpus: u32) -> WorkerConfiguration {
     }
 }
 
-fn cpu_rq(cpus: u32) -> ResourceRequestVariants {
+fn cpu_rq(cpus: u32, weight: u64) -> ResourceRequestVariants {
     ResourceRequestVariants::new_simple(ResourceRequest {
         n_nodes: 0,
         resources: smallvec![ResourceRequestEntry {
@@ -156,7 +156,7 @@ fn cpu_rq(cpus: u32) -> ResourceRequestVariants {
             policy: AllocationRequest::Compact(ResourceAmount::new_units(cpus)),
         }],
         min_time: Default::default(),
-        weight: Default::default(),
+        weight: tako::resources::ResourceWeight::try_from(weight as f32 / 10_000.0).expect("weight"),
     })
 }
 
@@ -219,15 +219,15 @@ fn build_real(spec: &Spec) -> Result<Real, String> {
     );
     server.set_client_events(Box::new(NoEvents));
     let mut real = Real { server, now: Instant::now(), rq_ids: Vec::new() };
-    for cpus in &spec.classes {
-        let id = real.server.server_ref().get_or_create_resource_rq_id(&cpu_rq(*cpus));
+    for (cpus, weight) in &spec.classes {
+        let id = real.server.server_ref().get_or_create_resource_rq_id(&cpu_rq(*cpus, *weight));
         real.rq_ids.push(id);
     }
     // filler class: 1 cpu (may coincide with a class of the spec)
-    let filler_class = match spec.classes.iter().position(|c| *c == 1) {
+    let filler_class = match spec.classes.iter().position(|c| c.0 == 1) {
         Some(i) => i,
         None => {
-            let id = real.server.server_ref().get_or_create_resource_rq_id(&cpu_rq(1));
+            let id = real.server.server_ref().get_or_create_resource_rq_id(&cpu_rq(1, 10_000));
             real.rq_ids.push(id);
             real.rq_ids.len() - 1
         }
@@ -244,7 +244,7 @@ fn build_real(spec: &Spec) -> Result<Real, String> {
         let mut n = 0u32;
         for c in &w.pre {
             batch.push((TaskId::new(job, JobTaskId::new(n)), *c, 0));
-            used += spec.classes[*c];
+            used += spec.classes[*c].0;
             n += 1;
         }
         let mut dummies = Vec::new();
@@ -252,7 +252,7 @@ fn build_real(spec: &Spec) -> Result<Real, String> {
             let t = TaskId::new(job, JobTaskId::new(n));
             batch.push((t, *c, 0));
             dummies.push(t);
-            used += spec.classes[*c];
+            used += spec.classes[*c].0;
             n += 1;
         }
         if used > w.cpus {
@@ -293,7 +293,7 @@ fn build_real(spec: &Spec) -> Result<Real, String> {
             // the rejected dummies leave; their room is filled again so that later workers' tasks cannot land here
             real.server.server_ref().cancel_tasks(&dummies);
             let mut refill: Vec<(TaskId, usize, i32)> = Vec::new();
-            let freed: u32 = w.blocked.iter().map(|c| spec.classes[*c]).sum();
+            let freed: u32 = w.blocked.iter().map(|c| spec.classes[*c].0).sum();
             for _ in 0..freed {
                 let t = TaskId::new(job, JobTaskId::new(n));
                 refill.push((t, filler_class, 0));
@@ -794,7 +794,7 @@ fn fragment(inst: &Inst) -> &'static str {
     let rc = inst.ready_classes();
     if rc <= 1 {
         "F1"
-    } else if inst.workers.len() == 1 && rc <= 2 {
+    } else if inst.workers.len() == 1 && rc <= 2 && inst.classes.iter().all(|c| c.weight == 10_000) {
         "F2"
     } else {
         "out"
@@ -1105,7 +1105,12 @@ fn gen_spec(rng: &mut Rng, thorough: bool) -> Spec {
     }
     let n_ready = rng.weighted(&[2, 4, 4]) + 1;
     let n_classes = (n_ready + rng.weighted(&[6, 3, 1])).min(4);
-    let classes: Vec<u32> = sizes[..n_classes].to_vec();
+    // mostly the default weight; sometimes other weights (then no instance is in F2)
+    let odd_weights = rng.chance(1, 6);
+    let classes: Vec<(u32, u64)> = sizes[..n_classes]
+        .iter()
+        .map(|c| (*c, if odd_weights { *rng.pick(&[5_000u64, 10_000, 20_000, 100_000]) } else { 10_000 }))
+        .collect();
     let busy_case = rng.chance(2, 5);
     let mut workers = Vec::new();
     for _ in 0..nw {
@@ -1116,8 +1121,8 @@ fn gen_spec(rng: &mut Rng, thorough: bool) -> Spec {
         if busy_case && rng.chance(2, 3) {
             for _ in 0..rng.range(1, 2) {
                 let c = rng.below(n_classes as u64) as usize;
-                if used + classes[c] <= cpus {
-                    used += classes[c];
+                if used + classes[c].0 <= cpus {
+                    used += classes[c].0;
                     pre.push(c);
                 }
             }
@@ -1125,7 +1130,7 @@ fn gen_spec(rng: &mut Rng, thorough: bool) -> Spec {
         if rng.chance(1, 12) {
             let c = rng.below(n_classes as u64) as usize;
             // (the 1-cpu class is what the setup fills workers with, it cannot be the rejected one)
-            if classes[c] != 1 && used + classes[c] <= cpus {
+            if classes[c].0 != 1 && used + classes[c].0 <= cpus {
                 blocked.push(c);
             }
         }
@@ -1213,9 +1218,9 @@ fn replay() {
                     });
                 }
             }
-            ["op", "class", _rq, need, _weight] => {
+            ["op", "class", _rq, need, weight] => {
                 if let Some((_, _, s)) = &mut cur {
-                    s.classes.push((need.parse::<u64>().unwrap() / UNIT) as u32);
+                    s.classes.push(((need.parse::<u64>().unwrap() / UNIT) as u32, weight.parse().unwrap()));
                 }
             }
             ["op", "queue", rq, entries] => {
